@@ -24,32 +24,40 @@ Definition icall : Type := Z * Z * list Z.        (* real_time, opcode, args *)
 Fixpoint rlookup (v : Z) (r : iregs) : option Z :=
   match r with [] => None | (k, z) :: t => if v =? k then Some z else rlookup v t end.
 
+(* [wrap32] without the division when the argument is already in range (Proofs/BlocksInst.v: w32_eq) *)
+Definition w32 (z : Z) : Z := if in_i32b z then z else wrap32 z.
+
 (* registers hold i32 values *)
 Definition ird (v : Z) (r : iregs) : outcome Z :=
-  match rlookup v r with Some z => Ok (wrap32 z) | None => Panic P_UNINIT end.
-Definition iwr (v : Z) (z : Z) (r : iregs) : iregs := (v, z) :: r.
+  match rlookup v r with Some z => Ok (w32 z) | None => Panic P_UNINIT end.
+(* HashMap::insert: replaces the binding *)
+Fixpoint iwr (v : Z) (z : Z) (r : iregs) : iregs :=
+  match r with
+  | [] => [(v, z)]
+  | (k, x) :: t => if v =? k then (v, z) :: t else (k, x) :: iwr v z t
+  end.
 
 Definition b2z (b : bool) : Z := if b then 1 else 0.
 Definition bop_eval (op : bop) (a b : Z) : Z :=
   match op with
-  | OAdd => wrap32 (a + b) | OSub => wrap32 (a - b) | OMul => wrap32 (a * b)
+  | OAdd => w32 (a + b) | OSub => w32 (a - b) | OMul => w32 (a * b)
   | OEq => b2z (a =? b) | ONe => b2z (negb (a =? b))
   | OLt => b2z (a <? b) | OLe => b2z (a <=? b) | OGt => b2z (b <? a) | OGe => b2z (b <=? a)
   end.
 
 Fixpoint ieval (e : iexpr) (r : iregs) : outcome (Z * iregs) :=
   match e with
-  | ILit z => Ok (wrap32 z, r)
+  | ILit z => Ok (w32 z, r)
   | IVar v => do z <- ird v r; Ok (z, r)
   | IBin a op b =>
       do ar <- ieval a r;
       do br <- ieval b (snd ar);
       Ok (bop_eval op (fst ar) (fst br), snd br)
-  | IPreDec v => do z <- ird v r; let z' := wrap32 (z - 1) in Ok (z', iwr v z' r)
+  | IPreDec v => do z <- ird v r; let z' := w32 (z - 1) in Ok (z', iwr v z' r)
   end.
 
 Definition iconst (e : iexpr) : option Z :=
-  match e with ILit z => Some (wrap32 z) | _ => None end.
+  match e with ILit z => Some (w32 z) | _ => None end.
 
 Fixpoint ieval_list (es : list iexpr) (r : iregs) : outcome (list Z * iregs) :=
   match es with
